@@ -372,18 +372,25 @@ func registerNatives(e *Engine) {
 			if g.Pkg == nil || !strings.HasPrefix(g.Pkg.Pkg.Path(), "github.com/google/go-tdx-guest/") || strings.Contains(g.Pkg.Pkg.Path(), "/zzvp") {
 				continue
 			}
-			o.Frozen = true
-			// and everything reachable from it (backing arrays up to capacity, maps, pointees)
+			// the variable and everything reachable from it (backing arrays up to capacity, maps,
+			// pointees) - unless it is frozen already (by vp.Freeze: that stays as it is)
+			soft := func(already bool, x interface{}) bool {
+				if !already {
+					ex.softFrozen = append(ex.softFrozen, x)
+				}
+				return true
+			}
+			o.Frozen = soft(o.Frozen, o)
 			ex.walk(o.V, func(x interface{}) {
 				switch r := x.(type) {
 				case *Obj:
-					r.Frozen = true
+					r.Frozen = soft(r.Frozen, r)
 				case *ByteObj:
-					r.Frozen = true
+					r.Frozen = soft(r.Frozen, r)
 				case *Vec:
-					r.Frozen = true
+					r.Frozen = soft(r.Frozen, r)
 				case *Map:
-					r.Frozen = true
+					r.Frozen = soft(r.Frozen, r)
 				}
 			})
 		}
@@ -552,8 +559,15 @@ func registerNatives(e *Engine) {
 	n["(crypto.Hash).HashFunc"] = func(ex *Exec, site ssa.Instruction, args []Value) Value { return args[0] }
 	// single-threaded execution: locks are no-ops
 	nop := func(ex *Exec, site ssa.Instruction, args []Value) Value { return nil }
-	for _, nm := range []string{"(*sync.Mutex).Lock", "(*sync.Mutex).Unlock", "(*sync.RWMutex).Lock", "(*sync.RWMutex).Unlock", "(*sync.RWMutex).RLock", "(*sync.RWMutex).RUnlock"} {
+	for _, nm := range []string{"(*sync.RWMutex).RLock", "(*sync.RWMutex).RUnlock"} {
 		n[nm] = nop
+	}
+	// between Lock and Unlock package-level memory may be written (see syncEnter)
+	for _, nm := range []string{"(*sync.Mutex).Lock", "(*sync.RWMutex).Lock"} {
+		n[nm] = func(ex *Exec, site ssa.Instruction, args []Value) Value { ex.syncEnter(); return nil }
+	}
+	for _, nm := range []string{"(*sync.Mutex).Unlock", "(*sync.RWMutex).Unlock"} {
+		n[nm] = func(ex *Exec, site ssa.Instruction, args []Value) Value { ex.syncLeave(); return nil }
 	}
 	n["(*sync.Mutex).TryLock"] = func(ex *Exec, site ssa.Instruction, args []Value) Value { return ex.tb().True() }
 	n["errors.As"] = func(ex *Exec, site ssa.Instruction, args []Value) Value {
